@@ -47,6 +47,7 @@ class ValGen(object):
         # mandatory members, so leaving them out is an invalid value there.
         self.absent_additions = absent_additions
         self.size_left = 6000
+        self.nodes_left = 25000
         # Probability of choosing an extension-addition alternative of an
         # extensible CHOICE / ENUMERATED.
         self.addition_bias = addition_bias
@@ -206,6 +207,9 @@ class ValGen(object):
         desc = self.spec[module_name]['types'][type_name]
         # Total size budget of one value (octets / characters / elements).
         self.size_left = 150000 if self.big else 6000
+        # Wide non-recursive types with long mandatory lists can still blow
+        # up below max_depth: bound the number of nodes of one value.
+        self.nodes_left = 120000 if self.big else 25000
 
         return self.gen(desc, module_name, 0)
 
@@ -314,6 +318,11 @@ class ValGen(object):
 
         if depth > self.max_depth + 40:
             raise Unsupported('no finite value found')
+
+        self.nodes_left -= 1
+
+        if self.nodes_left < 0:
+            raise Unsupported('value too large')
 
         resolved, module_name, chain = self.resolve(desc, module_name)
         kind = resolved['type']
